@@ -264,7 +264,9 @@ def gen_pred(rng, posts, depth, forq=False):
         return gen_leaf(rng, posts, forq)
     r = rng.random()
     if r < 0.25:
-        return ('not', gen_pred(rng, posts, depth - 1, forq))
+        x = gen_pred(rng, posts, depth - 1, forq)
+        # the expression parser folds `! constant` while parsing, so its printed form is not the tree's
+        return x if (forq and x[0] == 'const') else ('not', x)
     if r < 0.62:
         return ('and', gen_pred(rng, posts, depth - 1, forq), gen_pred(rng, posts, depth - 1, forq))
     return ('or', gen_pred(rng, posts, depth - 1, forq), gen_pred(rng, posts, depth - 1, forq))
@@ -491,7 +493,7 @@ def gen_query_case(rng, posts, depth, multi):
 
 
 EDGE = ['a', 'b', 'Ab', 'and', 'or', 'not', 'payee', 'tag', 'code', 'note', 'desc', 'meta',
-        '(', ')', '&', '|', '!', '@', '#', '%', '=', ' ', ' ', "'", '"', '/', '\\', 'x y', 'show', '=', '(', ')']
+        '(', ')', '&', '|', '!', '@', '#', '%', '=', ' ', ' ', "'", '"', '/', '\\', 'x y', '=', '(', ')']
 
 
 def gen_edge(rng):
